@@ -6,15 +6,15 @@ ORACLE = "generated-input search (Hypothesis strategies, seeded by VERIF_SEED, s
 T = {
  "C01": ("property-based testing: Hypothesis-generated contract pairs x wirings x keep/simplify/tactic orders, judged by an exact rational implication oracle (z3 as decision procedure, witnesses re-checked with Fractions)", "5/C01"),
  "C02": ("property-based testing: Hypothesis-generated (dividend, divisor) pairs incl. dividends built by composition, exact rational implication oracle", "5/C02"),
- "C03": ("property-based testing: class-directed generated pairs, differential against exact containment decided by z3, judged only outside the grey zone", "5/C03"),
+ "C03": ("property-based testing: class-directed generated pairs plus an enumerated, validated corpus of mined solver-hard systems under 8 sign patterns, differential against exact containment decided by z3, judged only outside the grey zone", "5/C03"),
  "C04": ("property-based testing + bounded enumeration of a small integer grid: elimination calls for every tactic order, exact implication oracle", "5/C04"),
  "C05": ("property-based testing of the generic algebra over a finite-domain constraint stub whose primitives are nondeterministic within their documented contracts (choices drawn by Hypothesis), truth-table oracle", "5/C05"),
  "C06": ("bounded-exhaustive enumeration of interface topologies over a stub theory + generated polyhedral cases, reference model of the prescribed interfaces", "5/C06"),
- "C07": ("property-based testing with planted redundancy, exact oracle for selection/equivalence/irredundancy", "5/C07"),
+ "C07": ("property-based testing with planted redundancy and an enumerated corpus of mined solver-hard systems, exact oracle for selection/equivalence/irredundancy", "5/C07"),
  "C08": ("property-based testing, exact equivalence oracle, operand-order metamorphic relation", "5/C08"),
  "C09": ("grammar-based generation of expression trees rendered in several spellings + coverage-guided byte fuzzing (atheris), reference evaluator and exact equivalence for all real points", "5/C09"),
  "C10": ("property-based round-trip testing (dict, strings, files) with exact comparison against the 4-significant-digit reading", "5/C10"),
- "C11": ("property-based testing with boundary-placed dyadic behaviours, Fraction evaluation oracle", "5/C11"),
+ "C11": ("property-based testing with boundary-placed dyadic behaviours under several variable-naming schemes and an enumerated corpus of mined solver-hard systems, Fraction evaluation / exact feasibility oracle", "5/C11"),
  "C12": ("property-based differential testing against an exact rational LP optimum (z3 Optimize)", "5/C12"),
  "C13": ("stateful property-based testing: generated operation histories over a shared pool, deep-snapshot invariants, aliasing scramble, replay of every step in a pristine forked interpreter", "5/C13"),
  "C14": ("exception classification over all generators + adversarial shapes, and exhaustive single-field fault injection into contract dictionaries/files", "5/C14"),
